@@ -26,6 +26,7 @@ from __future__ import annotations
 import contextlib
 import inspect
 import json
+import os
 import sys
 import types
 import warnings
@@ -68,6 +69,11 @@ MODS = ["J2O.Props.C13"]
 
 class Boom(Exception):
     pass
+
+
+class BoomBase(BaseException):
+    """an exception that is NOT an `Exception` (like KeyboardInterrupt / SystemExit / GeneratorExit):
+    `finally` must unwind for it exactly as for any other exception"""
 
 
 class Tok:
@@ -275,7 +281,8 @@ def gen_case(rng: common.Rng, idx: int) -> dict:
             if k in p:
                 fix(p[k])
     fix(prog)
-    return {"profile": profile, "world": world, "reg": reg, "ps": ps, "prog": prog}
+    return {"profile": profile, "world": world, "reg": reg, "ps": ps, "prog": prog,
+            "base_exc": bool(idx % 3 == 1)}
 
 
 def run_real(case: dict) -> str:
@@ -285,11 +292,14 @@ def run_real(case: dict) -> str:
 
     sb = Sandbox(case["world"]["own"], {int(k): v for k, v in case["world"]["frozen_own"].items()})
     plan: dict[str, list] = {"faults": []}
+    # the model does not distinguish exception classes: every injected exception of this case is either an
+    # ordinary Exception or a BaseException that is not an Exception
+    Exc = BoomBase if case.get("base_exc") else Boom
 
     def make_site(i, t, a, k):
         def patch_fn(orig):
             if plan["faults"][i] == "make":
-                raise Boom(f"patch_fn {i}")
+                raise Exc(f"patch_fn {i}")
             return Wrap(k, orig)
         return (patch_fn, [sb.t[t]], ATTRS[a])
 
@@ -303,7 +313,7 @@ def run_real(case: dict) -> str:
 
         def mv(orig, k=k, bad=(s["fault"] == "make")):
             if bad:
-                raise Boom("make_value")
+                raise Exc("make_value")
             return Wrap(k, orig)
         return MonkeyPatchSpec(tgt, ATTRS[s["attr"]], mv)
 
@@ -312,13 +322,13 @@ def run_real(case: dict) -> str:
         if t == "skip":
             return
         if t == "raise":
-            raise Boom("body")
+            raise Exc("body")
         if t == "seq":
             ex(p["a"]); ex(p["b"]); return
         if t == "catch":
             try:
                 ex(p["body"])
-            except Exception:
+            except BaseException:
                 pass
             return
         if t == "patches":
@@ -343,7 +353,7 @@ def run_real(case: dict) -> str:
     try:
         try:
             ex(case["prog"])
-        except Exception:
+        except BaseException:
             raised = True
         own, look, pst = [], [], []
         for t in range(8):
@@ -551,9 +561,13 @@ def _define_programs() -> dict:
     def c13_inner_raises(x):
         raise Boom("inside a function body")
 
+    def c13_inner_raises_base(x):
+        raise BoomBase("inside a function body, not an Exception")
+
     mod.c13_inner = onnx_function(c13_inner)
     mod.c13_outer = onnx_function(c13_outer)
     mod.c13_inner_raises = onnx_function(c13_inner_raises)
+    mod.c13_inner_raises_base = onnx_function(c13_inner_raises_base)
 
     from jax.extend.core import Primitive
     unsupported = Primitive("c13_unsupported_primitive")
@@ -570,6 +584,9 @@ def _define_programs() -> dict:
         "nested_fn": lambda x: mod.c13_outer(x) - 1.0,
         "fn_body_raises": lambda x: mod.c13_inner_raises(x),
         "trace_raises": lambda x: (_ for _ in ()).throw(Boom("while tracing")),
+        "trace_raises_base": lambda x: (_ for _ in ()).throw(BoomBase("while tracing, not an Exception")),
+        "trace_interrupted": lambda x: (_ for _ in ()).throw(KeyboardInterrupt()),
+        "fn_body_raises_base": lambda x: mod.c13_inner_raises_base(x),
         "unsupported": lambda x: unsupported.bind(x) + 1.0,
         "jitted": jitted,
     })
@@ -587,11 +604,55 @@ def history(rng: common.Rng, thorough: bool) -> list[dict]:
         {"prog": "jitted", "x64": False},
         {"prog": "nnx_linear", "x64": False},
         {"prog": "nested_fn", "x64": True},
+        # failures in the EMIT stage (after tracing and lowering succeeded) x precision flag
+        {"prog": "simple", "x64": True, "emit": "names"},
+        {"prog": "matmul", "x64": True, "emit": "dir"},
+        {"prog": "simple", "x64": False, "emit": "names"},
+        {"prog": "nested_fn", "x64": True, "emit": "file_ok"},
+        # exceptions that are not `Exception`s, while tracing and inside a function body
+        {"prog": "trace_raises_base", "x64": False},
+        {"prog": "trace_interrupted", "x64": True},
+        {"prog": "fn_body_raises_base", "x64": False},
+        # the same on a host whose flag is ON
+        {"prog": "simple", "x64": False, "host_x64": True},
+        {"prog": "trace_raises", "x64": False, "host_x64": True},
+        {"prog": "matmul", "x64": False, "emit": "dir", "host_x64": True},
     ]
-    extra = [{"prog": rng.choice(["simple", "matmul", "nested_fn", "unsupported", "trace_raises", "fn_body_raises",
-                                  "jitted"]), "x64": rng.chance(0.5)} for _ in range(4 if not thorough else 16)]
+    kinds = ["simple", "matmul", "nested_fn", "unsupported", "trace_raises", "fn_body_raises", "jitted",
+             "trace_raises_base", "fn_body_raises_base"]
+    extra = []
+    for _ in range(4 if not thorough else 24):
+        st = {"prog": rng.choice(kinds), "x64": rng.chance(0.5)}
+        if rng.chance(0.3):
+            st["emit"] = rng.choice(["names", "dir", "file_ok"])
+        if rng.chance(0.2):
+            st["host_x64"] = True
+        extra.append(st)
     steps = [base[0]] + rng.shuffle(base[1:] + extra)
     return steps
+
+
+def convert_step(st: dict, d: dict) -> tuple[bool, str]:
+    """One real to_onnx call of a history step. Returns (converted?, error text)."""
+    import shutil
+    import tempfile
+    from jax2onnx import to_onnx
+    kw: dict[str, Any] = {"enable_double_precision": st["x64"]}
+    tmp = None
+    emit = st.get("emit")
+    if emit == "names":
+        kw.update(input_names=["v"], output_names=["v"])         # clashing custom names → ValueError when emitting
+    elif emit in ("dir", "file_ok"):
+        tmp = tempfile.mkdtemp(prefix="c13_")
+        kw.update(return_mode="file", output_path=tmp if emit == "dir" else os.path.join(tmp, "m.onnx"))
+    try:
+        to_onnx(d[st["prog"]], [(2, 3)], **kw)
+        return True, ""
+    except (Exception, BoomBase, KeyboardInterrupt) as e:
+        return False, f"{type(e).__name__}: {str(e)[:80]}"
+    finally:
+        if tmp:
+            shutil.rmtree(tmp, ignore_errors=True)
 
 
 def probes() -> dict:
@@ -652,12 +713,11 @@ def run_history(chk: Check, rng: common.Rng, thorough: bool) -> None:
             "probe_changes": 0}
     with Recorder() as rec:
         for i, st in enumerate(steps):
-            ok = True
-            try:
-                to_onnx(d[st["prog"]], [(2, 3)], enable_double_precision=st["x64"])
-            except Exception as e:
-                ok = False
-                err = f"{type(e).__name__}: {str(e)[:80]}"
+            if st.get("host_x64"):
+                # this step runs on a host whose flag is ON; compare against a snapshot taken under that flag
+                jax.config.update("jax_enable_x64", True)
+                prev.x64 = True
+            ok, err = convert_step(st, d)
             stat["steps"] += 1
             stat["succeeded" if ok else "failed"] += 1
             cur = Snapshot()
@@ -680,6 +740,9 @@ def run_history(chk: Check, rng: common.Rng, thorough: bool) -> None:
                             f"jax_enable_x64 is {df['x64'][1]} after to_onnx({st['prog']}) (was {df['x64'][0]})",
                             {"history": steps[: i + 1]})
                 jax.config.update("jax_enable_x64", df["x64"][0])
+            if st.get("host_x64"):
+                jax.config.update("jax_enable_x64", False)
+                cur.x64 = False
             if df["patch_state"][1] != df["patch_state"][0]:
                 chk.finding({"kind": "patch_state_not_restored", "after": st["prog"], "converted": ok},
                             f"_PATCH_STATE has {df['patch_state'][1]} entries after to_onnx({st['prog']})",
@@ -851,15 +914,21 @@ def replay(path: str) -> int:
         psys.import_all_plugins()
         d = _define_programs()
         before = Snapshot()
+        flag_leaks = 0
         for st in rep["history"]:
             if st["prog"] not in d:
                 continue
-            try:
-                to_onnx(d[st["prog"]], [(2, 3)], enable_double_precision=st["x64"])
-            except Exception as e:
-                print("  ", st, "raised", type(e).__name__)
+            if st.get("host_x64"):
+                jax.config.update("jax_enable_x64", True)
+            flag0 = bool(jax.config.jax_enable_x64)
+            ok, err = convert_step(st, d)
+            print("  ", st, "converted" if ok else f"raised {err}", "| x64 flag", flag0, "->",
+                  bool(jax.config.jax_enable_x64))
+            if bool(jax.config.jax_enable_x64) != flag0:
+                flag_leaks += 1
+            jax.config.update("jax_enable_x64", False)
         df = before.diff(Snapshot())
         print(json.dumps({k: ([list(x) for x in v][:20] if isinstance(v, list) else v) for k, v in df.items()},
                          indent=1, default=str))
-        return 1 if df["resolution_changed"] or df["x64"][0] != df["x64"][1] else 0
+        return 1 if df["resolution_changed"] or flag_leaks else 0
     return 0
